@@ -54,8 +54,8 @@ Fixpoint xsize (x : xml) : nat :=
 Definition s_alternate_content : str := [109;99;58;65;108;116;101;114;110;97;116;101;67;111;110;116;101;110;116].
 Definition s_fallback : str := [109;99;58;70;97;108;108;98;97;99;107].
 
-(* office_xml._collapse_alternate_content: node.find_child("mc:Fallback").children — None.children
-   is AttributeError (Crash 20) when there is no fallback *)
+(* office_xml._collapse_alternate_content: node.find_child_or_null("mc:Fallback").children —
+   a missing fallback is empty content *)
 Fixpoint collapse_alt (x : xml) : outcome (list xml) :=
   match x with
   | XText _ => Ok [x]
@@ -63,7 +63,7 @@ Fixpoint collapse_alt (x : xml) : outcome (list xml) :=
       if str_eqb n s_alternate_content then
         match find_child_in s_fallback cs with
         | Some f => Ok (xchildren f)
-        | None => Crash 20
+        | None => Ok []
         end
       else
         cs' <- (fix go (l : list xml) : outcome (list xml) :=
